@@ -228,17 +228,21 @@ theorem sendHdrAndBody_spec (noVec nonblk : Bool) (hdr body : Bytes) (s1 s2 : So
     exact spec_of_take _ hs
 
 
+theorem ne_nil_of_length_pos' {l : List α} (h : 1 ≤ l.length) : l ≠ [] := by
+  intro e; rw [e] at h; simp at h
+
 theorem iovAdvance_spec : ∀ (l : List Bytes) (t : Nat), t ≤ l.flatten.length →
-    ∃ k l', iovAdvance l t = some (k, l') ∧ l'.flatten = l.flatten.drop t ∧ k + l'.length = l.length
+    ∃ k l', iovAdvance l t = some (k, l') ∧ l'.flatten = l.flatten.drop t ∧ k + l'.length = l.length ∧
+      ((∀ e ∈ l, e ≠ []) → ∀ e ∈ l', e ≠ [])
   | [], t, h => by
     have : t = 0 := by simpa using h
     subst this
-    exact ⟨0, [], rfl, rfl, rfl⟩
+    exact ⟨0, [], rfl, rfl, rfl, fun x => x⟩
   | e :: rest, t, h => by
     simp only [List.flatten_cons, List.length_append] at h
     by_cases hc : t ≠ 0 ∧ e.length ≤ t
-    · obtain ⟨k, l', h1, h2, h3⟩ := iovAdvance_spec rest (t - e.length) (by omega)
-      refine ⟨k + 1, l', ?_, ?_, ?_⟩
+    · obtain ⟨k, l', h1, h2, h3, h4⟩ := iovAdvance_spec rest (t - e.length) (by omega)
+      refine ⟨k + 1, l', ?_, ?_, ?_, fun hne => h4 (fun x hx => hne x (List.mem_cons_of_mem _ hx))⟩
       · rw [iovAdvance, if_pos hc, h1]
       · rw [h2, List.flatten_cons, List.drop_append]
         have : List.drop t e = [] := List.drop_eq_nil_of_le hc.2
@@ -249,15 +253,19 @@ theorem iovAdvance_spec : ∀ (l : List Bytes) (t : Nat), t ≤ l.flatten.length
           by_cases hh : e.length ≤ t
           · exact absurd ⟨h0, hh⟩ hc
           · omega
-        refine ⟨0, e.drop t :: rest, ?_, ?_, ?_⟩
+        refine ⟨0, e.drop t :: rest, ?_, ?_, ?_, ?_⟩
         · rw [iovAdvance, if_neg hc, if_pos h0]
         · rw [List.flatten_cons, List.flatten_cons, List.drop_append]
           have : t - e.length = 0 := by omega
           rw [this, List.drop_zero]
         · simp
+        · intro hne x hx
+          rcases List.mem_cons.mp hx with hx | hx
+          · rw [hx]; apply ne_nil_of_length_pos'; simp only [List.length_drop]; omega
+          · exact hne x (List.mem_cons_of_mem _ hx)
       · have : t = 0 := by omega
         subst this
-        refine ⟨0, e :: rest, ?_, ?_, ?_⟩
+        refine ⟨0, e :: rest, ?_, ?_, ?_, fun x => x⟩
         · simp [iovAdvance]
         · simp
         · simp
